@@ -218,37 +218,220 @@ const (
 	causeLowerKey  = "lowercased-key-outside-lexer-alphabet"
 )
 
-// causes names the defect class(es) behind a failing format→parse of tree t by repair
-// experiments: the failure is attributed to a class when removing that class' ingredient from
-// the tree (and nothing else) makes the round trip succeed. kind is only part of the signature
-// of unclassified failures.
-func causes(c cfg, t *node, kind string) []string {
+// diagnosis names the defect class behind a failing format→parse of a tree and carries a shrunk
+// witness for it.
+type diagnosis struct {
+	cause string
+	small *node // shrunk tree that still fails for the same cause (nil: not shrunk)
+}
+
+// diagnose attributes a failing format→parse of tree t to defect classes by repair experiments:
+// the failure belongs to a class when removing that class' ingredient from the tree (and nothing
+// else) makes the round trip succeed. The witness is then shrunk under the predicate "still
+// fails, and the same repair still makes it succeed" (so a shrunk tree is never merely invalid).
+// kind is only part of the signature of unclassified failures.
+func diagnose(c cfg, t *node, kind string) []diagnosis {
 	keyCause := func(allWord bool) string {
 		if allWord {
 			return causeLowerKey
 		}
 		return causeURNScheme
 	}
+	padRepair := func(x *node) (*node, bool) {
+		// a single condition is never hit by this defect, so every leaf must be fine on its own
+		for _, l := range x.leaves() {
+			if !roundTrips(c, l) {
+				return nil, false
+			}
+		}
+		return padTrailingBackslashes(x)
+	}
+	keyRepair := func(x *node) (*node, bool) { y, ch, _ := rekey(x); return y, ch }
+	shrunk := func(repair func(*node) (*node, bool)) *node {
+		return shrinkTree(t, func(x *node) bool {
+			if x == nil || roundTrips(c, x) {
+				return false
+			}
+			y, changed := repair(x)
+			return changed && roundTrips(c, y)
+		})
+	}
 	padded, padChanged := padTrailingBackslashes(t)
 	if padChanged && roundTrips(c, padded) {
-		return []string{causeBackslash}
+		return []diagnosis{{causeBackslash, shrunk(padRepair)}}
 	}
 	rekeyed, keyChanged, allWord := rekey(t)
 	if keyChanged && roundTrips(c, rekeyed) {
-		return []string{keyCause(allWord)}
+		sm := shrunk(keyRepair)
+		_, _, aw := rekey(sm)
+		return []diagnosis{{keyCause(aw), sm}}
 	}
 	if padChanged && keyChanged {
 		if both, _, _ := rekey(padded); roundTrips(c, both) {
-			return []string{causeBackslash, keyCause(allWord)}
+			return []diagnosis{{causeBackslash, nil}, {keyCause(allWord), nil}}
 		}
 	}
 	// smallest failing sub-term: a single condition?
 	for _, l := range t.leaves() {
 		if !roundTrips(c, l) {
-			return []string{kind + "|other:single-condition:" + l.PT + ":" + l.Cmp + ":" + valueClass(l.Val)}
+			return []diagnosis{{kind + "|unclassified:single-condition:value-" + firstFeature(l.Val), l}}
 		}
 	}
-	return []string{kind + "|other:multi-condition"}
+	return []diagnosis{{kind + "|unclassified:multi-condition", nil}}
+}
+
+// shrinkTree greedily replaces the tree by a sub-tree, or removes one child of a combination, or
+// shortens one value, as long as the predicate keeps holding.
+func shrinkTree(t *node, fails func(*node) bool) *node {
+	budget := 400 // predicate evaluations
+	try := func(x *node) bool {
+		if budget <= 0 {
+			return false
+		}
+		budget--
+		return fails(x)
+	}
+	for progress := true; progress && budget > 0; {
+		progress = false
+		for _, cand := range structuralCandidates(t) {
+			if try(cand) {
+				t, progress = cand, true
+				break
+			}
+		}
+	}
+	// values: delete chunks of runes (halves, quarters, … single runes)
+	leaves := t.leaves()
+	for i := range leaves {
+		if len(leaves) > 4 {
+			break
+		}
+		cur := []rune(t.leaves()[i].Val)
+		for chunk := (len(cur) + 1) / 2; chunk >= 1 && len(cur) > 0; chunk /= 2 {
+			for at := 0; at < len(cur); {
+				endAt := at + chunk
+				if endAt > len(cur) {
+					endAt = len(cur)
+				}
+				shorter := string(cur[:at]) + string(cur[endAt:])
+				cand := replaceLeafValue(t, i, shorter)
+				if try(cand) {
+					cur = []rune(shorter)
+					t = cand
+				} else {
+					at += chunk
+				}
+			}
+		}
+	}
+	return t
+}
+
+// shrinkString deletes chunks of runes (halves, quarters, … single runes) while the predicate holds.
+func shrinkString(v string, fails func(string) bool) string {
+	cur := []rune(v)
+	budget := 300
+	for chunk := (len(cur) + 1) / 2; chunk >= 1 && len(cur) > 0; chunk /= 2 {
+		for at := 0; at < len(cur) && budget > 0; {
+			endAt := at + chunk
+			if endAt > len(cur) {
+				endAt = len(cur)
+			}
+			shorter := string(cur[:at]) + string(cur[endAt:])
+			budget--
+			if fails(shorter) {
+				cur = []rune(shorter)
+			} else {
+				at += chunk
+			}
+		}
+	}
+	return string(cur)
+}
+
+func replaceLeafValue(t *node, idx int, v string) *node {
+	n := -1
+	return t.mapLeaves(func(l *node) *node {
+		n++
+		if n == idx {
+			c := *l
+			c.Val = v
+			return &c
+		}
+		return l
+	})
+}
+
+// structuralCandidates: every proper sub-tree (children first), then the tree with one child of
+// one combination removed.
+func structuralCandidates(t *node) []*node {
+	if t == nil || t.isCond() {
+		return nil
+	}
+	var out []*node
+	var subs func(n *node)
+	subs = func(n *node) {
+		for _, k := range n.Kids {
+			if !k.isCond() {
+				out = append(out, k)
+			}
+		}
+		for _, k := range n.Kids {
+			if !k.isCond() {
+				subs(k)
+			}
+		}
+	}
+	subs(t)
+	var removals func(n *node, rebuild func(*node) *node)
+	removals = func(n *node, rebuild func(*node) *node) {
+		if n.isCond() {
+			return
+		}
+		if len(n.Kids) > 1 {
+			for i := range n.Kids {
+				c := &node{Op: n.Op}
+				c.Kids = append(c.Kids, n.Kids[:i]...)
+				c.Kids = append(c.Kids, n.Kids[i+1:]...)
+				out = append(out, rebuild(c))
+			}
+		}
+		for i, k := range n.Kids {
+			i := i
+			removals(k, func(x *node) *node {
+				c := &node{Op: n.Op, Kids: append([]*node{}, n.Kids...)}
+				c.Kids[i] = x
+				return rebuild(c)
+			})
+		}
+	}
+	removals(t, func(x *node) *node { return x })
+	return out
+}
+
+// shrunkNote adds the shrunk witness to wit and returns a short note for the one-line description.
+func shrunkNote(c cfg, dg diagnosis, wit map[string]any) string {
+	if dg.small == nil {
+		return ""
+	}
+	dg.small = nf(dg.small)
+	s, _ := stringify(dg.small.toQL())
+	p := parse(c, s)
+	obs := p.why()
+	if p.ok() {
+		obs = "parses to " + fromQL(p.q.Root()).canon()
+	}
+	wit["shrunk"] = map[string]any{"tree": dg.small.canon(), "formatted": s, "reparse": obs}
+	return fmt.Sprintf(" [shrunk: %s formats to %s: %s]", dg.small.canon(), s, trunc(obs, 120))
+}
+
+// firstFeature is the dominant feature of a value: coarse enough for a signature.
+func firstFeature(v string) string {
+	c := valueClass(v)
+	if i := strings.Index(c, "+"); i > 0 {
+		return c[:i]
+	}
+	return c
 }
 
 func (k *chk14) noteTree(prefix string, t *node) (multi, meta bool) {
@@ -337,9 +520,9 @@ func (k *chk14) checkText(q, kind string) {
 		if !p2.ok() {
 			wit["reparse"] = p2.why()
 			k.res.Count("clause1.violated", 1)
-			for _, cs := range causes(c, t1, "rejected") {
-				k.res.Count("violated."+cs, 1)
-				k.res.Violate("roundtrip|"+cs, fmt.Sprintf("the formatted form of an accepted query is rejected: %s → %s: %s", trunc(q, 120), trunc(s, 120), p2.why()), wit)
+			for _, dg := range diagnose(c, t1, "rejected") {
+				k.res.Count("violated."+dg.cause, 1)
+				k.res.Violate("roundtrip|"+dg.cause, fmt.Sprintf("the formatted form of an accepted query is rejected: %s → %s: %s", trunc(q, 120), trunc(s, 120), p2.why())+shrunkNote(c, dg, wit), wit)
 			}
 			continue
 		}
@@ -348,9 +531,9 @@ func (k *chk14) checkText(q, kind string) {
 			wit["reparsed"] = t2.canon()
 			wit["difference"] = firstDiff(t1, t2, "")
 			k.res.Count("clause1.violated", 1)
-			for _, cs := range causes(c, t1, "differs") {
-				k.res.Count("violated."+cs, 1)
-				k.res.Violate("roundtrip|"+cs, fmt.Sprintf("formatting and re-parsing an accepted query changes it (%s): %s → %s", firstDiff(t1, t2, ""), trunc(q, 120), trunc(s, 120)), wit)
+			for _, dg := range diagnose(c, t1, "differs") {
+				k.res.Count("violated."+dg.cause, 1)
+				k.res.Violate("roundtrip|"+dg.cause, fmt.Sprintf("formatting and re-parsing an accepted query changes it (%s): %s → %s", firstDiff(t1, t2, ""), trunc(q, 120), trunc(s, 120))+shrunkNote(c, dg, wit), wit)
 			}
 			continue
 		}
@@ -384,9 +567,9 @@ func (k *chk14) checkTree(c cfg, t *node) {
 	if !p.ok() {
 		wit["reparse"] = p.why()
 		k.res.Count("clause2.violated", 1)
-		for _, cs := range causes(c, t, "rejected") {
-			k.res.Count("violated."+cs, 1)
-			k.res.Violate("roundtrip|"+cs, fmt.Sprintf("a valid programmatic query formats to text that is rejected: %s: %s", trunc(s, 160), p.why()), wit)
+		for _, dg := range diagnose(c, t, "rejected") {
+			k.res.Count("violated."+dg.cause, 1)
+			k.res.Violate("roundtrip|"+dg.cause, fmt.Sprintf("a valid programmatic query formats to text that is rejected: %s: %s", trunc(s, 160), p.why())+shrunkNote(c, dg, wit), wit)
 		}
 	} else {
 		got := fromQL(p.q.Root())
@@ -394,9 +577,9 @@ func (k *chk14) checkTree(c cfg, t *node) {
 			wit["reparsed"] = got.canon()
 			wit["difference"] = firstDiff(want, nf(got), "")
 			k.res.Count("clause2.violated", 1)
-			for _, cs := range causes(c, t, "differs") {
-				k.res.Count("violated."+cs, 1)
-				k.res.Violate("roundtrip|"+cs, fmt.Sprintf("a valid programmatic query formats to text that parses to a different query (%s): %s", firstDiff(want, nf(got), ""), trunc(s, 160)), wit)
+			for _, dg := range diagnose(c, t, "differs") {
+				k.res.Count("violated."+dg.cause, 1)
+				k.res.Violate("roundtrip|"+dg.cause, fmt.Sprintf("a valid programmatic query formats to text that parses to a different query (%s): %s", firstDiff(want, nf(got), ""), trunc(s, 160))+shrunkNote(c, dg, wit), wit)
 			}
 		} else {
 			k.res.Count("clause2.held", 1)
@@ -544,44 +727,49 @@ func (k *chk14) checkInjection(c cfg, t template, v string) {
 	}
 	t0 := fromQL(p0.q.Root())
 	nsites := 0
-	want := t0.mapLeaves(func(l *node) *node {
-		if l.Val == placeholder {
-			nsites++
-			cp := *l
-			cp.Val = v
-			return &cp
-		}
-		return l
-	})
+	// expected(val): the skeleton with the one literal replaced by val
+	expected := func(val string) *node {
+		nsites = 0
+		return t0.mapLeaves(func(l *node) *node {
+			if l.Val == placeholder {
+				nsites++
+				cp := *l
+				cp.Val = val
+				return &cp
+			}
+			return l
+		})
+	}
+	want := expected(v)
 	if nsites != 1 {
 		k.res.Count("clause3.template_unusable", 1)
 		return
 	}
+	holds := func(val string) bool {
+		pp := parse(c, t.with(val))
+		return pp.ok() && equalNode(fromQL(pp.q.Root()), expected(val))
+	}
 	text := t.with(v)
 	wit := map[string]any{"clause": 3, "config": c.name, "env": k.spec.String(), "template": t.before + "@value" + t.after, "value": v, "query": text, "expected": want.canon()}
 	pv := parse(c, text)
-	classify := func(kind string) string {
-		if strings.HasSuffix(v, `\`) {
-			if pp := parse(c, t.with(v+"_")); pp.ok() {
-				padded := want.mapLeaves(func(l *node) *node {
-					if l.Val == v {
-						cp := *l
-						cp.Val = v + "_"
-						return &cp
-					}
-					return l
-				})
-				if equalNode(fromQL(pp.q.Root()), padded) {
-					return causeBackslash
-				}
-			}
+	// classify names the cause by the repair experiment and shrinks the value under "still fails and
+	// the repair still helps"
+	classify := func(kind string) (string, string) {
+		backslash := func(val string) bool { return strings.HasSuffix(val, `\`) && !holds(val) && holds(val+"_") }
+		if backslash(v) {
+			small := shrinkString(v, backslash)
+			wit["shrunk_value"] = small
+			wit["shrunk_query"] = t.with(small)
+			return causeBackslash, fmt.Sprintf(" [shrunk value: %q]", small)
 		}
-		return kind + "|other:" + valueClass(v)
+		return kind + "|unclassified:value-" + firstFeature(v), ""
 	}
 	if !pv.ok() {
 		wit["observed"] = pv.why()
 		k.res.Count("clause3.violated", 1)
-		k.res.Violate("injection|"+classify("rejected"), fmt.Sprintf("an escaped value makes the whole query unparseable: %s: %s", trunc(text, 160), pv.why()), wit)
+		cs, note := classify("rejected")
+		k.res.Count("violated.injection."+cs, 1)
+		k.res.Violate("injection|"+cs, fmt.Sprintf("an escaped value makes the whole query unparseable: %s: %s", trunc(text, 160), pv.why())+note, wit)
 		return
 	}
 	got := fromQL(pv.q.Root())
@@ -591,7 +779,9 @@ func (k *chk14) checkInjection(c cfg, t template, v string) {
 		wit["conditions_expected"] = len(want.leaves())
 		wit["conditions_observed"] = len(got.leaves())
 		k.res.Count("clause3.violated", 1)
-		k.res.Violate("injection|"+classify("altered"), fmt.Sprintf("an escaped value does not stay one literal (%s): %s", firstDiff(want, got, ""), trunc(text, 160)), wit)
+		cs, note := classify("altered")
+		k.res.Count("violated.injection."+cs, 1)
+		k.res.Violate("injection|"+cs, fmt.Sprintf("an escaped value does not stay one literal (%s): %s", firstDiff(want, got, ""), trunc(text, 160))+note, wit)
 		return
 	}
 	k.res.Count("clause3.held", 1)
